@@ -195,6 +195,102 @@ func c09Facts(w *bytes.Buffer) {
 	}
 	fmt.Fprintf(w, "def cutoffOp : String := %s\n", leanStr(op))
 	fmt.Fprintf(w, "def cutoffIncrements : Bool := %v\n\n", inc)
+	// --- the cut-off's state: every write to calcContext.iterations / iterationsCache in the package,
+	// and the statements of the cut-off branch in order (the model's `bump; rec; setCache`) ----------
+	w.WriteString("/-! every statement of the package (tests and verif hooks excluded) that writes `calcContext.iterations` or\n`calcContext.iterationsCache` (assignment, increment or decrement, delete or clear, composite-literal field), as `func: statement`, sorted;\nand the statements of cellResolver's cut-off branch in source order -/\n")
+	var ctxWrites []string
+	isCounter := func(t string) bool {
+		return strings.Contains(t, ".iterations[") || strings.Contains(t, ".iterationsCache[") ||
+			strings.HasSuffix(t, ".iterations") || strings.HasSuffix(t, ".iterationsCache")
+	}
+	oneLine := func(t string) string { return strings.Join(strings.Fields(t), " ") }
+	for _, f := range files {
+		for _, d := range f.Decls {
+			fd, ok := d.(*ast.FuncDecl)
+			if !ok || fd.Body == nil {
+				continue
+			}
+			ast.Inspect(fd.Body, func(x ast.Node) bool {
+				switch n := x.(type) {
+				case *ast.AssignStmt:
+					for _, l := range n.Lhs {
+						if isCounter(src(l)) {
+							ctxWrites = append(ctxWrites, fd.Name.Name+": "+oneLine(src(n)))
+							break
+						}
+					}
+				case *ast.IncDecStmt:
+					if isCounter(src(n.X)) {
+						ctxWrites = append(ctxWrites, fd.Name.Name+": "+oneLine(src(n)))
+					}
+				case *ast.CallExpr:
+					if id, ok := n.Fun.(*ast.Ident); ok && (id.Name == "delete" || id.Name == "clear") && len(n.Args) > 0 && isCounter(src(n.Args[0])) {
+						ctxWrites = append(ctxWrites, fd.Name.Name+": "+oneLine(src(n)))
+					}
+				case *ast.KeyValueExpr:
+					if id, ok := n.Key.(*ast.Ident); ok && (id.Name == "iterations" || id.Name == "iterationsCache") {
+						ctxWrites = append(ctxWrites, fd.Name.Name+": "+id.Name+": "+oneLine(src(n.Value)))
+					}
+				}
+				return true
+			})
+		}
+	}
+	sort.Strings(ctxWrites)
+	if len(ctxWrites) == 0 {
+		fail("writes to calcContext.iterations / iterationsCache")
+	}
+	c09StrList(w, "ctxCounterWrites", ctxWrites)
+	// every mention (selector expression) of the two fields: an alias such as `m := ctx.iterations` changes the count
+	mentions := 0
+	for _, f := range files {
+		ast.Inspect(f, func(x ast.Node) bool {
+			if se, ok := x.(*ast.SelectorExpr); ok && (se.Sel.Name == "iterations" || se.Sel.Name == "iterationsCache") {
+				mentions++
+			}
+			return true
+		})
+	}
+	fmt.Fprintf(w, "def ctxCounterMentions : Nat := %d\n\n", mentions)
+	var branch, elseRet []string
+	if fd := funcDecl("File", "cellResolver"); fd != nil {
+		ast.Inspect(fd.Body, func(x ast.Node) bool {
+			n, ok := x.(*ast.IfStmt)
+			if !ok {
+				return true
+			}
+			be, ok := n.Cond.(*ast.BinaryExpr)
+			if !ok || !strings.Contains(src(be.X), "ctx.iterations[") || !strings.Contains(src(be.Y), "MaxCalcIterations") {
+				return true
+			}
+			for _, st := range n.Body.List {
+				branch = append(branch, oneLine(src(st)))
+			}
+			return false
+		})
+		// what the enclosing `if ctx.entry != ref` block does when the cut-off refuses: the statements after the inner if
+		ast.Inspect(fd.Body, func(x ast.Node) bool {
+			n, ok := x.(*ast.IfStmt)
+			if !ok {
+				return true
+			}
+			be, ok := n.Cond.(*ast.BinaryExpr)
+			if !ok || be.Op != token.NEQ || !strings.Contains(src(be.X), "ctx.entry") {
+				return true
+			}
+			for i, st := range n.Body.List {
+				if i > 0 {
+					elseRet = append(elseRet, oneLine(src(st)))
+				}
+			}
+			return false
+		})
+	}
+	if len(branch) == 0 || len(elseRet) == 0 {
+		fail("cellResolver: statements of the cut-off branch / of the refusal path")
+	}
+	c09StrList(w, "cutoffBranch", branch)
+	c09StrList(w, "cutoffRefused", elseRet)
 	// --- lazy array-formula expansion (cell.go: getCellFormula) ---------------
 	w.WriteString("/-! lazy expansion of array formulas (cell.go: getCellFormula): is `f.formulaChecked = true` placed before the `setArrayFormulaCells()` call (then a failed expansion is reported once only)? -/\n")
 	assignIdx, callIdx := -1, -1
@@ -292,6 +388,86 @@ func c09Facts(w *bytes.Buffer) {
 	sort.Strings(cl)
 	c09StrList(w, "evalWrites", wl)
 	c09StrList(w, "evalCalls", cl)
+	// --- the function library's access to the workbook ----------------------------------------
+	w.WriteString("/-! purity frame of the function library: inside the methods of `formulaFuncs` (receiver r), every use of the\nworkbook `r.f` as `f.X` (distinct, sorted), the number of uses of `r.f` that are not followed by a selector (the\nworkbook handed to something else), and every assignment whose target starts at the receiver or at a worksheet `ws` -/\n")
+	libUses, libBare, libWrites, libMethods := map[string]bool{}, 0, []string{}, 0
+	for _, f := range files {
+		for _, d := range f.Decls {
+			fd, ok := d.(*ast.FuncDecl)
+			if !ok || fd.Body == nil || !c09IsFormulaFunc(fd) {
+				continue
+			}
+			libMethods++
+			recv := ""
+			if len(fd.Recv.List[0].Names) == 1 {
+				recv = fd.Recv.List[0].Names[0].Name
+			}
+			isWb := func(e ast.Expr) bool {
+				se, ok := e.(*ast.SelectorExpr)
+				if !ok || se.Sel.Name != "f" {
+					return false
+				}
+				id, ok := se.X.(*ast.Ident)
+				return ok && id.Name == recv
+			}
+			inner, outer := 0, 0
+			root := func(e ast.Expr) string {
+				for {
+					switch x := e.(type) {
+					case *ast.SelectorExpr:
+						e = x.X
+					case *ast.IndexExpr:
+						e = x.X
+					case *ast.StarExpr:
+						e = x.X
+					case *ast.ParenExpr:
+						e = x.X
+					case *ast.Ident:
+						return x.Name
+					default:
+						return ""
+					}
+				}
+			}
+			ast.Inspect(fd.Body, func(x ast.Node) bool {
+				switch n := x.(type) {
+				case *ast.SelectorExpr:
+					if isWb(n) {
+						inner++
+					} else if isWb(n.X) {
+						outer++
+						libUses["f."+n.Sel.Name] = true
+					}
+				case *ast.AssignStmt:
+					if n.Tok != token.DEFINE {
+						for _, l := range n.Lhs {
+							if _, plain := l.(*ast.Ident); !plain && (root(l) == recv || root(l) == "ws") {
+								libWrites = append(libWrites, fd.Name.Name+": "+src(l))
+							}
+						}
+					}
+				case *ast.IncDecStmt:
+					if _, plain := n.X.(*ast.Ident); !plain && (root(n.X) == recv || root(n.X) == "ws") {
+						libWrites = append(libWrites, fd.Name.Name+": "+src(n.X))
+					}
+				}
+				return true
+			})
+			libBare += inner - outer
+		}
+	}
+	if libMethods == 0 {
+		fail("methods of formulaFuncs (library frame)")
+	}
+	var lu []string
+	for k := range libUses {
+		lu = append(lu, k)
+	}
+	sort.Strings(lu)
+	sort.Strings(libWrites)
+	c09StrList(w, "libWorkbookUses", lu)
+	fmt.Fprintf(w, "def libWorkbookBare : Nat := %d\n\n", libBare)
+	c09StrList(w, "libReceiverWrites", libWrites)
 	// --- unguarded assertion sites ------------------------------------------
 	w.WriteString("/-! number of `Peek().(T)` / `Pop().(T)` type assertions per modelled function -/\n")
 	w.WriteString("def assertSites : List (String × Nat) := [")
